@@ -656,6 +656,9 @@ def run(ctx):
             corr.append(("mask-roundtrip:" + name, True, ""))
     dist["seconds"] = {"small_lists": round(t_lists - ctx.t0, 1), "large_count_lists": round(t_big - t_lists, 1),
                        "coq_cases": round(time.time() - t_big, 1)}
+    # the translator tie of the trainer half of the pipeline model (run_trainer = Pipeline.train + the writers)
+    import trainer_run_tie
+    corr.extend(trainer_run_tie.obligations(("equalities", "instance")))
     rule = ("generated training lists (words, capitalised words, multi-words, digits, years, symbols, keyboard walks, context strings, "
             "spaces, Latin-1 / Cyrillic / Cherokee / Georgian letters and digraphs with a separate title case, three-word passwords followed by "
             "their two-word tails, non-ASCII spaces / format / private-use characters, e-mails, websites, duplicates) in utf-8 / latin-1 / cp1251, coverage 0.3 / 0.6 / 1, n-gram 2-4; "
